@@ -126,6 +126,11 @@ class CheckContext:
         cov.update(self.extra)
         nviol = len(self.violations)
         evidence.write(self.prop, self.tier, self.seed, cov, wall, nviol, self.assumptions, level=level)
+        rdir = os.path.join(evidence.VERIF, "replays")
+        if os.path.isdir(rdir):
+            for fn in os.listdir(rdir):
+                if fn.startswith(self.prop + "-"):
+                    os.unlink(os.path.join(rdir, fn))
         for line in self.findings.lines(self.prop):
             print(line)
         for i, v in enumerate(self.violations[:10]):
